@@ -23,6 +23,7 @@ import (
 	"verif/h/kit"
 	"verif/h/mc"
 	"verif/h/ref"
+	sk "verif/h/storekit"
 	"verif/h/world"
 )
 
@@ -215,6 +216,8 @@ func run(c *mc.Ctx, u mc.Unit) {
 		return l.CoversL2(d.Count)
 	}
 	nBridges, nCovered := 0, 0
+	var lastCovD *world.Deposit
+	var lastCovL *world.InfoLeaf
 	for _, deps := range [][]*world.Deposit{w.L1Deps, w.L2Deps} {
 		for _, d := range deps {
 			nBridges++
@@ -231,6 +234,7 @@ func run(c *mc.Ctx, u mc.Unit) {
 					continue // nothing is promised
 				}
 				nCovered++
+				lastCovD, lastCovL = d, l
 				c.Distinct(fmt.Sprintf("cp|%d|%d|%d", d.Net, d.Count, l.Index))
 				if d.Net == world.NetL1 {
 					c.Witness("covered_pairs_l1_bridge")
@@ -349,7 +353,65 @@ func run(c *mc.Ctx, u mc.Unit) {
 		c.NonTrivial()
 	}
 	c.Obs("%s: %d bridges, %d L1 info leaves, %d covered (bridge, leaf) pairs", scen, nBridges, len(leaves), nCovered)
+	failingReads(c, svc, w, scen, lastCovD, lastCovL)
 	l2ReorgEpilogue(c, ctx, st, svc, w, p.Ops, scen, leaves)
+}
+
+// failingReads: the last covered (bridge, leaf) pair of the scenario is asked for again while ONE statement of the request
+// fails (every statement in turn, storekit's statement gate in failing-read mode: the statement is refused, an error that is
+// neither "no rows" nor a cancellation). The answer must be an error, or a proof that is as good as the one served without
+// the fault.
+func failingReads(c *mc.Ctx, svc *bridgeservice.BridgeService, w *world.World, scen string, d *world.Deposit, l *world.InfoLeaf) {
+	if d == nil {
+		return
+	}
+	q := fmt.Sprintf("network_id=%d&leaf_index=%d&deposit_count=%d", d.Net, l.Index, d.Count)
+	disarm := sk.GateReadFailsAt(0)
+	code, _ := call(svc.ClaimProofHandler, q)
+	positions, _ := disarm()
+	if code != http.StatusOK || positions == 0 {
+		return // reported by the main loop / nothing to fail
+	}
+	leaf := d.LeafHash()
+	for at := 1; at <= positions; at++ {
+		disarm := sk.GateReadFailsAt(at)
+		code, body := call(svc.ClaimProofHandler, q)
+		_, fired := disarm()
+		if !fired {
+			break
+		}
+		c.AddEvals(1)
+		c.Witness("claim_proof_requests_with_one_failing_read")
+		if code != http.StatusOK {
+			c.Witness("claim_proof_requests_refused_because_a_read_failed")
+			continue
+		}
+		who := fmt.Sprintf("%s: bridge network=%d deposit_count=%d, L1 info leaf %d, statement %d of %d of the request fails", scen, d.Net, d.Count, l.Index, at, positions)
+		var r claimProofResp
+		if err := json.Unmarshal(body, &r); err != nil {
+			c.Failf("claim-proof/unparsable", "%s: %v: %s", who, err, short(body))
+			continue
+		}
+		pl, ok1 := toProof(r.ProofLocal)
+		pr, ok2 := toProof(r.ProofRollup)
+		bad := ""
+		switch {
+		case !ok1 || !ok2:
+			bad = "proofs of the wrong length"
+		case r.Leaf.L1InfoTreeIndex != l.Index || r.Leaf.MainnetExitRoot != l.MER || r.Leaf.RollupExitRoot != l.RER || r.Leaf.GlobalExitRoot != l.GER:
+			bad = "another L1 info leaf"
+		case d.Net == world.NetL1 && ref.Verify(leaf, pl, d.Count) != l.MER:
+			bad = "proof_local_exit_root does not fold to the mainnet exit root of the leaf"
+		case d.Net != world.NetL1 && ref.Verify(leaf, pl, d.Count) != w.ExitRootOrZero(world.NetL2, l.L2Ver):
+			bad = "proof_local_exit_root does not fold to the rollup's local exit root"
+		case d.Net != world.NetL1 && ref.Verify(w.ExitRootOrZero(world.NetL2, l.L2Ver), pr, world.NetL2-1) != l.RER:
+			bad = "proof_rollup_exit_root does not fold to the rollup exit root of the leaf"
+		}
+		if bad != "" {
+			c.Failf("claim-proof/served-a-wrong-answer-after-a-failed-read", "%s: /claim-proof answered 200: %s", who, bad)
+			return
+		}
+	}
 }
 
 // l2ReorgEpilogue: the L2 chain is reorged from the block of its FIRST bridge and comes back with that bridge replaced by
@@ -485,7 +547,7 @@ func main() {
 			return 150
 		},
 		Run:   run,
-		Setup: func(string) { kit.Quiet(); gin.SetMode(gin.ReleaseMode) },
+		Setup: func(string) { kit.Quiet(); gin.SetMode(gin.ReleaseMode); sk.InstallStatementGate() },
 		Rule: "unit = one scenario (operation sequence of a world family: all sequences up to the length bound, de-duplicated by the " +
 			"canonical form of the resulting chains, shortest first); all four stores are filled completely (L1 stores sparsely or " +
 			"densely by scenario parity). Inside a unit: /claim-proof for every (bridge on L1 or L2, L1 info leaf index) pair, " +
